@@ -4,8 +4,12 @@
 package remote
 
 import (
+	"fmt"
+	"strings"
+
 	"github.com/spf13/cobra"
 	"github.com/wrgl/wrgl/cmd/wrgl/utils"
+	"github.com/wrgl/wrgl/pkg/conf"
 	conffs "github.com/wrgl/wrgl/pkg/conf/fs"
 	"github.com/wrgl/wrgl/pkg/ref"
 )
@@ -28,7 +32,10 @@ func renameCmd() *cobra.Command {
 			if err != nil {
 				return err
 			}
-			utils.MustGetRemote(cmd, c, oldRem)
+			rem := utils.MustGetRemote(cmd, c, oldRem)
+			if _, ok := c.Remote[newRem]; ok {
+				return fmt.Errorf("remote %s already exists", newRem)
+			}
 			rd := utils.GetRepoDir(cmd)
 			defer rd.Close()
 			rs := rd.OpenRefStore()
@@ -36,7 +43,25 @@ func renameCmd() *cobra.Command {
 			if err != nil {
 				return err
 			}
-			c.Remote[newRem] = c.Remote[oldRem]
+			// fetch destinations under refs/remotes/<old>/ follow the remote's name
+			oldPrefix := "refs/remotes/" + oldRem + "/"
+			newPrefix := "refs/remotes/" + newRem + "/"
+			for i, rs := range rem.Fetch {
+				if dst := rs.Dst(); !rs.Negate && strings.HasPrefix(dst, oldPrefix) {
+					moved, err := conf.NewRefspec(rs.Src(), newPrefix+strings.TrimPrefix(dst, oldPrefix), false, rs.Force)
+					if err != nil {
+						return err
+					}
+					rem.Fetch[i] = moved
+				}
+			}
+			// so do the upstream settings of branches
+			for _, b := range c.Branch {
+				if b != nil && b.Remote == oldRem {
+					b.Remote = newRem
+				}
+			}
+			c.Remote[newRem] = rem
 			delete(c.Remote, oldRem)
 			return s.Save(c)
 		},
